@@ -1,0 +1,26 @@
+//go:build verif
+
+// Contracts for the deductive verifier in /verif (comment-only file; compiled only with -tags verif).
+package docker
+
+// ---------------------------------------------------------------------------------------------
+// C10: Docker probe. One context with the configured data timeout bounds ALL requests of the probe (cancel always
+// released); the client talks to tcp://address:port with the scanner's scheme and HTTP client; a record iff the
+// Info request succeeded; the ServerVersion request is best effort.
+//@ func (*Scanner).Scan
+//@   props C10 C08
+//@   observe context.WithTimeout, String, fmt.Sprintf, WithHTTPClient, WithScheme, WithHost, NewClientWithOpts, Info, ServerVersion, cancel
+//@   entry row noclient: [call context.WithTimeout(ctx, s.dataTimeout) as (c2, cf) ; call String(r.DstIP) as (ips) ; call fmt.Sprintf("tcp://%s:%d", bind_a) as (host) ;
+//@                        call WithHTTPClient(s.client) as (o1) ; call WithScheme(s.proto) as (o2) ; call WithHost(host) as (o3) ; call NewClientWithOpts(bind_os) as (cl, e) ; call cancel()]
+//@                          when len(a) == 2 && astype(a[0], string) == ips && astype(a[1], uint16) == r.DstPort && len(os) == 4 && os[1] == o1 && os[2] == o2 && os[3] == o3
+//@                            && e != nil && ret0 == nil && ret1 == e -> exit
+//@   entry row noinfo:   [call context.WithTimeout(ctx, s.dataTimeout) as (c2, cf) ; call String(r.DstIP) as (ips) ; call fmt.Sprintf("tcp://%s:%d", bind_a) as (host) ;
+//@                        call WithHTTPClient(s.client) as (o1) ; call WithScheme(s.proto) as (o2) ; call WithHost(host) as (o3) ; call NewClientWithOpts(bind_os) as (cl, e) ;
+//@                        call Info(cl, c2) as (info, e2) ; call cancel()]
+//@                          when e == nil && e2 != nil && ret0 == nil && ret1 == e2 -> exit
+//@   entry row record:   [call context.WithTimeout(ctx, s.dataTimeout) as (c2, cf) ; call String(r.DstIP) as (ips) ; call fmt.Sprintf("tcp://%s:%d", bind_a) as (host) ;
+//@                        call WithHTTPClient(s.client) as (o1) ; call WithScheme(s.proto) as (o2) ; call WithHost(host) as (o3) ; call NewClientWithOpts(bind_os) as (cl, e) ;
+//@                        call Info(cl, c2) as (info, e2) ; call ServerVersion(cl, c2) as (ver, e3) ; call cancel()]
+//@                          when len(a) == 2 && astype(a[0], string) == ips && astype(a[1], uint16) == r.DstPort && len(os) == 4 && os[1] == o1 && os[2] == o2 && os[3] == o3
+//@                            && e == nil && e2 == nil && ret1 == nil && isptr(ret0, ScanResult)
+//@                            && asptr(ret0, ScanResult).Host == host && asptr(ret0, ScanResult).Proto == s.proto && asptr(ret0, ScanResult).ScanType == "docker" -> exit
